@@ -4,7 +4,7 @@ ROOT=${1:-/tmp/mutants}; FILTER=${2:-}
 WT=/tmp/wt/scan
 git -C /repo worktree remove --force $WT 2>/dev/null
 git -C /repo worktree add -q --detach $WT HEAD
-for d in $(ls -d $ROOT/out_a*/C*-* $ROOT/C*-* 2>/dev/null | sort -t/ -k5); do
+for d in $(ls -d $ROOT/out_${ROUND:-a}*/C*-* 2>/dev/null | sort -t/ -k5); do
   [ -f $d/patch.diff ] || continue
   id=$(basename $d); prop=${id%%-*}
   [ -n "$FILTER" ] && [[ ! $id =~ $FILTER ]] && continue
